@@ -518,7 +518,11 @@ func (c *Ctx) completionWiring(lr layoutResult, sweep, evt *ssa.Function) {
 	{
 		name := shortFn(evt)
 		n, ok, d := 0, true, ""
-		for _, b := range evt.Blocks {
+		var evtBlocks []*ssa.BasicBlock
+		for _, ef := range c.familyOf(evt) {
+			evtBlocks = append(evtBlocks, ef.Blocks...)
+		}
+		for _, b := range evtBlocks {
 			for _, ins := range b.Instrs {
 				call, isC := ins.(*ssa.Call)
 				if !isC || call.Call.StaticCallee() != sweep || len(call.Call.Args) == 0 {
